@@ -5,9 +5,10 @@
      Gen_Stream_cuts.cfg (exhaustive): the unsegmented stream, every one-cut segmentation whose cut lies within
         +-2 bytes of a frame boundary or inside a fixed-size header, every two-cut segmentation whose cuts lie
         within +-1 byte of a frame boundary or on a field boundary inside a fixed-size header, the
-        one-byte-at-a-time segmentation, and one-byte-at-a-time after an unsplit first frame;
+        one-byte-at-a-time segmentation, one-byte-at-a-time after an unsplit first frame, and equal pieces of
+        7 / 64 / 1000 bytes;
      Gen_Stream_sim.cfg (simulation): random walks of Deliver(k), k drawn from a size palette.
-   Every step is Stream!DeliverEager, the fold of Deliver / Consume* / AskMore. *)
+   Every step is Stream!Segment (Deliver(k) with the server's side elided; MC_Stream covers the server). *)
 EXTENDS Stream, Json
 
 CONSTANTS MaxCuts,   \* cuts per enumerated segmentation
@@ -40,12 +41,12 @@ FieldCuts(fr) ==
     [] fr.k = "FSIZE" -> {2}
     [] OTHER -> {}
 
-Inside(fs) == 1..(TotalOf(fs) - 1)
+Within(fs, S) == LET t == TotalOf(fs) IN {p \in S : p >= 1 /\ p < t}
 
-Pos1(fs) == Inside(fs) \cap UNION {((EndOf(fs, i) - 2)..(EndOf(fs, i) + 2))
-                                   \cup ((StartOf(fs, i) + 1)..(StartOf(fs, i) + HeaderLen(fs[i]) - 1)) : i \in DOMAIN fs}
-Pos2(fs) == Inside(fs) \cap UNION {((EndOf(fs, i) - 1)..(EndOf(fs, i) + 1))
-                                   \cup {StartOf(fs, i) + o : o \in {x \in FieldCuts(fs[i]) : x < fs[i].n}} : i \in DOMAIN fs}
+Pos1(fs) == Within(fs, UNION {((EndOf(fs, i) - 2)..(EndOf(fs, i) + 2))
+                                   \cup ((StartOf(fs, i) + 1)..(StartOf(fs, i) + HeaderLen(fs[i]) - 1)) : i \in DOMAIN fs})
+Pos2(fs) == Within(fs, UNION {((EndOf(fs, i) - 1)..(EndOf(fs, i) + 1))
+                                   \cup {StartOf(fs, i) + o : o \in {x \in FieldCuts(fs[i]) : x < fs[i].n}} : i \in DOMAIN fs})
 
 Palette(st) == CASE st = "tiny" -> 1..3
                  [] st = "small" -> 1..24
@@ -55,6 +56,7 @@ Palette(st) == CASE st = "tiny" -> 1..3
 
 Styles(s) == IF ~Sim THEN {"cuts"}
              ELSE IF s.total <= 1500 THEN {"tiny", "small", "mixed", "tiny-head", "small-head", "mixed-head"}
+             ELSE IF s.total <= 8000 THEN {"small", "mixed", "small-head", "mixed-head", "big"}
              ELSE {"big", "big-head"}
 
 Base(st) == CASE st \in {"tiny", "tiny-head"} -> "tiny" [] st \in {"small", "small-head"} -> "small"
@@ -67,11 +69,16 @@ Init == \E i \in DOMAIN Sessions :
           /\ segs = <<>>
           /\ InitWith(Sessions[i].frames)
 
-StepTo(p) == /\ DeliverEager(p)
+Tot == Sessions[sess].total      \* = Total (checked by the trace specification for every run)
+
+StepTo(p) == /\ SegmentIn(p - delivered, Tot)
              /\ segs' = Append(segs, p - delivered)
              /\ UNCHANGED <<sess, style>>
 
 Ones(n) == [i \in 1..n |-> 1]
+(* the stream in pieces of k bytes (the last one shorter) *)
+Chunks(n, k) == [i \in 1..((n + k - 1) \div k) |-> IF i * k <= n THEN k ELSE n - (i - 1) * k]
+ChunkSizes(n) == (IF n <= 3000 THEN {7} ELSE {}) \cup (IF n <= 20000 THEN {64} ELSE {}) \cup {1000}
 
 RECURSIVE SumSeq(_, _)
 SumSeq(sq, j) == IF j = 0 THEN 0 ELSE sq[j] + SumSeq(sq, j - 1)
@@ -81,31 +88,33 @@ CutNext ==
       P2 == Pos2(frames)
   IN
   \/ /\ segs = <<>>                 \* first cut (or none: the unsegmented stream)
-     /\ \E p \in P1 \cup P2 \cup {Total} :
-          /\ DeliverEager(p) /\ segs' = <<p>> /\ UNCHANGED sess
-          /\ style' = IF p = Total THEN "cut0" ELSE IF p \in P2 THEN "cuts2" ELSE "cuts1"
+     /\ \E p \in P1 \cup P2 \cup {Tot} :
+          /\ SegmentIn(p, Tot) /\ segs' = <<p>> /\ UNCHANGED sess
+          /\ style' = IF p = Tot THEN "cut0" ELSE IF p \in P2 THEN "cuts2" ELSE "cuts1"
   \/ /\ style = "cuts2" /\ Len(segs) < MaxCuts /\ (TwoCut = {} \/ Sessions[sess].sess \in TwoCut)     \* further cuts only between positions of the reduced set
      /\ \E p \in P2 : p > delivered /\ StepTo(p)
-  \/ /\ style \in {"cuts1", "cuts2"} /\ StepTo(Total)
+  \/ /\ style \in {"cuts1", "cuts2"} /\ StepTo(Tot)
   \/ /\ segs = <<>> /\ Sessions[sess].ones          \* one byte at a time
-     /\ DeliverEager(Total) /\ segs' = Ones(Total) /\ style' = "ones" /\ UNCHANGED sess
+     /\ SegmentIn(Tot, Tot) /\ segs' = Ones(Tot) /\ style' = "ones" /\ UNCHANGED sess
+  \/ /\ segs = <<>>                                  \* equal pieces
+     /\ \E k \in ChunkSizes(Tot) : /\ k < Tot /\ SegmentIn(Tot, Tot) /\ segs' = Chunks(Tot, k)
+                                      /\ style' = "chunks" /\ UNCHANGED sess
   \/ /\ segs = <<>> /\ Sessions[sess].ones /\ Len(frames) > 1   \* the same after an unsplit first frame
-     /\ DeliverEager(Total) /\ segs' = <<frames[1].n>> \o Ones(Total - frames[1].n) /\ style' = "ones-head"
+     /\ SegmentIn(Tot, Tot) /\ segs' = <<frames[1].n>> \o Ones(Tot - frames[1].n) /\ style' = "ones-head"
      /\ UNCHANGED sess
 
 SimNext ==
   \/ /\ HeadFirst(style) /\ segs = <<>> /\ StepTo(frames[1].n)
   \/ /\ ~(HeadFirst(style) /\ segs = <<>>)
-     /\ \E k \in Palette(Base(style)) : k <= Total - delivered /\ StepTo(delivered + k)
+     /\ \E k \in Palette(Base(style)) : k <= Tot - delivered /\ StepTo(delivered + k)
 
-GenNext == delivered < Total /\ IF Sim THEN SimNext ELSE CutNext
+GenNext == delivered < Tot /\ IF Sim THEN SimNext ELSE CutNext
 
 Src == IF Sim THEN "sim-" \o style
-       ELSE IF style' \in {"ones", "ones-head"} THEN style' ELSE "cut" \o ToString(Len(segs') - 1)
+       ELSE IF style' \in {"ones", "ones-head", "chunks"} THEN style' ELSE "cut" \o ToString(Len(segs') - 1)
 
-Emit == (delivered' = Total) =>
+Emit == (delivered' = Tot) =>
           PrintT("B " \o ToJson([sess |-> Sessions[sess].sess, segs |-> segs', src |-> Src]))
 
-(* the specification's invariant holds along every generated behaviour *)
-GenInv == NeverEarly /\ EagerAtAsk /\ NeverAbandons /\ CompleteAtEnd /\ (asked => events = EventsOf(delivered))
+GenInv == Tot = Total /\ delivered <= Total /\ SumSeq(segs, Len(segs)) = delivered
 =============================================================================
